@@ -3,6 +3,8 @@ import CCVerif.Model.Printer
 import CCVerif.Model.WfAst
 import CCVerif.Model.AstQuery
 import CCVerif.Lemmas.ParsePrint
+import CCVerif.Lemmas.ParsePrint2
+import CCVerif.Lemmas.PrintLex2
 /-!
 # C05 — printing then re-parsing an expression preserves its tree (both syntaxes)
 
@@ -20,13 +22,19 @@ former defects 1–4 and 6, repaired in /repo, as positive theorems (`lex_spell_
 `less_roundtrips`, `recursion_roundtrips`, `set_brackets_sufficient`, `set_pairs_roundtrip_*`,
 `zero_index_roundtrips`) with regression pins of the old tables (`lex_spell_ascii_pinned`,
 `set_brackets_pinned`); the two RECORDED findings as closed counterexamples (5: numeric overflow of
-literals / indices, 7: transliteration of a local name onto a keyword); and the proved fragment
-`parse_print_partial` (unbounded trees, token level, no bracket hypothesis; proof in
-`Lemmas/ParsePrint.lean`).
+literals / indices, 7: transliteration of a local name onto a keyword); and the proved fragments:
+`parse_print_partial` (fragment `E`, token level; proof in `Lemmas/ParsePrint.lean`),
+`parse_print_fragment2` (fragment `E2` ⊇ `E`: + `ℬ`, enumerations, tuples, calls, filters, quantifiers, `D{…}`; token
+level; `Lemmas/ParsePrint2.lean`), `lex_print_fragment2` (printed TEXT lexes to the printed tokens;
+`Lemmas/LexPieces.lean`, `LexNumeric.lean`, `PrintLex2.lean`) and `parse_print_text_fragment2` (the property itself on
+the fragment, at the level of text, both syntaxes; uses `Lemmas/ParseErase.lean`: the parser never looks at positions).
+Which links of the chain tree → printer → text → lexer → tokens → parser → tree are theorems: on `E2` with
+lexer-conformant leaves ALL of them (unbounded trees); outside `E2` (recursive / imperative constructions, `{x∈X | φ}`
+without `D`, function definitions, global declarations) only kernel-evaluated instances and the correspondence run.
 -/
 namespace CCVerif.C05
 open CCVerif.Syntax CCVerif.Generated CCVerif.Lexer CCVerif.Parser CCVerif.Printer CCVerif.Wf
-open CCVerif.PP (Side E tk)
+open CCVerif.PP (Side E E2 tk)
 
 /-! ## Part 1 — tables -/
 
@@ -389,14 +397,18 @@ theorem parse_print_statement_counterexample : ¬ parse_print_statement := by
 
 /-! ### the proved fragment -/
 
-/-- the printed text of a fragment tree lexes to its token sequence `E.toks` (kinds and payloads;
-positions dropped) — NOT proved in general (it needs the separation lemmas for identifiers and
-numbers next to other tokens); instances below, and the model driver checks it on every
-fragment tree of the correspondence run -/
+/-- the first formulation of the lexer link (every well-formed `E` phrase, no condition on leaf payloads): FALSE as
+stated — an `E.atom` may carry any payload, and the printer is stuck on an identifier without a name. The provable
+formulation carries the hypothesis `E2.lexOK` and is `lex_print_fragment2` below. -/
 def lex_print_statement : Prop :=
   ∀ (syn : Syn) (e : E), e.wf = true →
     ((print syn e.ast).bind (lex syn)).map (·.map fun t => (t.id, t.data)) =
       some ((e.toks ++ [tk .END]).map fun t => (t.id, t.data))
+
+theorem lex_print_statement_counterexample : ¬ lex_print_statement := by
+  intro h
+  have := h .math (.atom .ID_LOCAL .none) rfl
+  revert this; decide +kernel
 
 /-- **parse_print_partial** (the proved part of `parse_print_statement`, at the level of tokens; no
 hypothesis beyond membership in the fragment).
@@ -411,11 +423,8 @@ the generated `CompareOperations` tables): precedence climbing against the gener
 re-attaches every operand where it was, unbracketed products are flattened exactly as printed,
 redundant bracket nodes disappear, nothing else changes. That the bracket decisions suffice at
 every node (`PP.ok_of_wf`) is derived from `brackets_suffice_fragment`, re-proved on every run.
-Excluded constructs: `ℬ`, function / predicate calls, enumerations, tuples, filters, quantifiers,
-declarative / recursive / imperative constructions, function definitions, global declarations
-(all of these are covered by the correspondence run and, for small trees, by the kernel-evaluated
-instances). Not covered by this theorem: the step from printed TEXT to tokens
-(`lex_print_statement`) and the independence of the tree shape from token positions. -/
+Superseded by `parse_print_fragment2` (larger fragment `E2`, which contains `E` through `PP.E.emb`) and, at the level
+of text, by `parse_print_text_fragment2`; kept because its proof is independent. -/
 theorem parse_print_partial (e : E) (hw : e.wf = true) :
     parseToks (e.toks ++ [tk .END]) = some e.ast :=
   CCVerif.PP.parseToks_toks_wf e hw
@@ -445,14 +454,150 @@ def sampleE : E :=
     (.neg (.lbin .OR (.lbin .AND (.pred .EQUAL (v "p") (v "q")) (.neg (.pred .SUBSET_OR_EQ (v "r") (v "s"))))
       (.pred .NOTIN (v "t") (v "u"))))
 
-/-- non-vacuity of `parse_print_partial`, and `lex_print_statement` on this instance in both
-syntaxes (so here the whole chain text → tokens → tree is closed) -/
+/-- non-vacuity of `parse_print_partial`, and the lexer link on this instance in both
+syntaxes by kernel evaluation (in general: `lex_print_fragment2`) -/
 theorem parse_print_partial_nonvacuous :
     sampleE.wf = true ∧ wfAst sampleE.ast = true ∧
     (∀ syn ∈ [Syn.math, .ascii],
       ((print syn sampleE.ast).bind (lex syn)).map (·.map fun t => (t.id, t.data)) =
         some ((sampleE.toks ++ [tk .END]).map fun t => (t.id, t.data)) ∧
       outcome syn sampleE.ast = .same) := by
+  decide +kernel
+
+/-! ### the larger fragment `E2`: tokens, then text -/
+
+/-- **parse_print_fragment2** (token level, unbounded trees, no bracket hypothesis). For EVERY set phrase or formula of
+the fragment `E2` (`Model/PPFragment2.lean`):
+  everything of `parse_print_partial`, and in addition
+  `ℬ(…)` (printed `ℬℬ(…)` without parentheses when nested), enumerations `{a, …}`, tuples `(a, b, …)`,
+  function and predicate calls `F1[a, …]` / `P1[a, …]`, filters `Fi1,2[p, …](a)`,
+  quantifiers `∀ / ∃` with a plain (`x`), tuple (`(x, (y, z))`) or enumerated (`x, y`) declaration,
+  the declarative construction `D{v∈d | φ}` with a plain or tuple variable,
+nested in any way, the parser model returns the tree from the printed token sequence: lists go through
+`setexpr_enum`, declared variables through `variable` / `variable_pack` and the `TupleDeclaration` rewrite, the body
+of a quantifier is a `logic_no_binary` exactly because `ViQuantifier` brackets every connective
+(`brackets_suffice_fragment2`), an enumeration never starts like a term declaration `x∈`.
+Still outside: recursive / imperative constructions, `{x∈X | φ}` without `D`, function definitions, global
+declarations, bare `F1` / `P1` as identifiers. -/
+theorem parse_print_fragment2 (e : E2) (hw : e.wf = true) (hSL : e.isS = true ∨ e.isL = true) :
+    parseToks (e.toks ++ [tk .END]) = some e.ast :=
+  CCVerif.PP.parseToks_toks_wf2 e hw hSL
+
+/-- `parse_print_partial` is the instance of `parse_print_fragment2` on embedded phrases -/
+example (e : E) (hw : e.wf = true) : parseToks (e.toks ++ [tk .END]) = some e.ast := by
+  have := parse_print_fragment2 e.emb (by rw [PP.emb_wf]; exact hw) (PP.emb_cat e)
+  rwa [PP.emb_toks, PP.emb_ast] at this
+
+/-- **brackets_suffice_fragment2**: the additional table facts (generated `CompareOperations`) behind
+`parse_print_fragment2`: the new set constructs are never bracketed as operands; `¬ ∀ ∃` and predicate calls are never
+bracketed under a connective or `¬`; a quantifier brackets every connective in its body and nothing else. -/
+theorem brackets_suffice_fragment2 :
+    (∀ p ∈ PP.set7L, ∀ c ∈ PP.primTopL, ∀ s ∈ PP.sides, PP.brSet p c s = false) ∧
+    (∀ c ∈ PP.primTopL, PP.brProd true c = false ∧ PP.brProd false c = false) ∧
+    (∀ p ∈ PP.logic4L, ∀ c ∈ PP.unaryTopL, ∀ s ∈ PP.sides, PP.brLogic p c s = false) ∧
+    (∀ c ∈ PP.unaryTopL, PP.brNot c = false) ∧
+    (∀ q ∈ PP.quantL, (∀ c ∈ PP.logic4L, PP.brQ q c = true) ∧ (∀ c ∈ PP.unaryTopL, PP.brQ q c = false)) :=
+  CCVerif.PP.bracket_tables2
+
+/-- **fixed_spellings_fragment** (generated spelling tables and lexer rules, both syntaxes): every fixed spelling
+the printer emits inside a fragment phrase splits into blanks + core + blanks, the core is lexed as its token
+without payload, trailing blanks stop every rule, and a core that is a word is extended neither by a comma nor (for
+`B`) by another `B`. -/
+theorem fixed_spellings_fragment : ∀ syn ∈ PP.synL, ∀ t ∈ PP.fragFixed, PP.fixedBase syn t = true :=
+  CCVerif.PP.fixed_table
+
+/-- **free_spellings_fragment**: operators, closing brackets, comma, bar, `∈`, `¬ ∀ ∃`, `∅` accept ANY following
+unit (their spelling ends with a blank, or no literal of the lexer extends it) and start with a non-alphanumeric
+unit, in both syntaxes. -/
+theorem free_spellings_fragment : ∀ syn ∈ PP.synL, ∀ t ∈ PP.freeL, PP.freeTok syn t = true ∧
+    PP.memb t PP.fragFixed = true ∧
+    (match (str syn t).head? with | some c => !isAlnum syn c | none => false) = true :=
+  CCVerif.PP.free_table
+
+/-- **punctuation_spellings_fragment**: the brackets, comma and bar are spelled as `GeneratorImplAST` writes them
+literally; `ℬ` may be followed by `ℬ` and by `(`; only `}` can extend `{` (ASCII `{}`). -/
+theorem punctuation_spellings_fragment :
+    (∀ syn ∈ PP.synL, str syn .PUNC_PL = [40] ∧ str syn .PUNC_PR = [41] ∧ str syn .PUNC_SL = [91] ∧
+      str syn .PUNC_SR = [93] ∧ str syn .PUNC_CL = [123] ∧ str syn .PUNC_CR = [125] ∧ str syn .PUNC_COMMA = [44] ∧
+      str syn .PUNC_BAR = [124]) ∧
+    (∀ syn ∈ PP.synL, ∀ t ∈ PP.wordL, PP.memb t PP.fragFixed = true ∧
+      (PP.freeTok syn t || !LexP.symStart syn (PP.fparts syn t).2.1) = true) ∧
+    (∀ syn ∈ PP.synL, ∀ t ∈ PP.startFixedL, PP.memb t PP.fragFixed = true ∧
+      (match (str syn t).head? with | some c => c != 125 | none => false) = true) :=
+  ⟨CCVerif.PP.punct_spell, CCVerif.PP.word_table, CCVerif.PP.start_table.1⟩
+
+/-- **lex_print_fragment2** (the lexer link, a theorem now): for every set phrase or formula of `E2` whose leaf
+payloads are lexer-conformant (`E2.lexOK syn`: an identifier name is a non-empty word over the alphabet of the syntax
+— `[A-Za-z0-9_]`, for MATH also `α…ω` — that the lexer of the syntax reads as ONE token of its kind; integer literals
+lie in `[0, 2³¹)`, indices of `Pr pr Fi` in `[0, 32767]`; `bool debool red card` carry no payload), the printer
+model prints a text and the lexer model reads it back as exactly `e.toks` (kinds and payloads) followed by END.
+Maximal munch is handled in general: `Lemmas/LexPieces.lean` (no rule matches beyond a token whose next unit does
+not extend it; blank runs), `Lemmas/LexNumeric.lean` (decimal spellings, index tuples), `Lemmas/PrintLex2.lean`
+(the printed text as a chain of such tokens). -/
+theorem lex_print_fragment2 (syn : Syn) (e : E2) (hw : e.wf = true) (hSL : e.isS = true ∨ e.isL = true)
+    (hl : e.lexOK syn = true) :
+    ((print syn e.ast).bind (lex syn)).map (·.map fun t => (t.id, t.data)) =
+      some ((e.toks ++ [tk .END]).map fun t => (t.id, t.data)) := by
+  obtain ⟨hp, hlex⟩ := CCVerif.PP.lex_print2 syn e hw hSL hl
+  rw [hp]
+  exact hlex
+
+/-- **parse_print_text_fragment2** (`parse_print_statement` restricted to the fragment, at the level of TEXT, both
+syntaxes): if the tree `t` is, up to positions, the tree of a set phrase or formula `e` of `E2` with lexer-conformant
+leaves, then print `t`, lex and parse the text — the result is `t` again (up to positions; local names are not
+changed by the transliteration because they are words of the target alphabet). Chain of theorems:
+printer = items (`PP.pclaim`, positions ignored: `PP.print_erA`) → lexer gives `e.toks` (`lex_print_fragment2`) →
+parser gives the tree (`parse_print_fragment2`) → positions of the tokens do not matter (`PE.parseToks_erase`).
+The two recorded findings are outside the hypothesis `E2.lexOK` (literal ≥ 2³¹ / index > 32767; a Greek name printed
+in ASCII). -/
+theorem parse_print_text_fragment2 (syn : Syn) (t : Ast) (e : E2) (ht : CCVerif.PE.erA t = e.ast) (hw : e.wf = true)
+    (hSL : e.isS = true ∨ e.isL = true) (hl : e.lexOK syn = true) : roundTrips syn t = true := by
+  obtain ⟨text, t', hp, hparse, heq⟩ := CCVerif.PP.text_roundtrip2_any syn t e ht hw hSL hl
+  simp [roundTrips, outcome, hp, hparse, heq]
+
+/-- the same for the zero-position tree of the phrase itself -/
+theorem parse_print_text_fragment2_self (syn : Syn) (e : E2) (hw : e.wf = true) (hSL : e.isS = true ∨ e.isL = true)
+    (hl : e.lexOK syn = true) : roundTrips syn e.ast = true := by
+  obtain ⟨text, t', hp, hparse, heq⟩ := CCVerif.PP.text_roundtrip2 syn e hw hSL hl
+  simp [roundTrips, outcome, hp, hparse, heq]
+
+/-- non-vacuity with real positions: `X1∪X2` as the parser delivers it -/
+example : ∀ syn ∈ [Syn.math, .ascii],
+    roundTrips syn (.node .UNION .none 0 5 [.node .ID_GLOBAL (.text "X1") 0 2 [], .node .ID_GLOBAL (.text "X2") 3 5 []]) = true := by
+  intro syn _
+  refine parse_print_text_fragment2 syn _ (.sbin .UNION (.atom .ID_GLOBAL (.text "X1")) (.atom .ID_GLOBAL (.text "X2")))
+    (by simp [CCVerif.PE.erA, CCVerif.PE.erL, E2.ast]) (by decide) (Or.inl rfl) (by cases syn <;> decide +kernel)
+
+/-- `∀x, (y, z)∈ℬ(X1×X2) (P1[x, {y, 1}] ⇒ ∃w∈Fi1,2[X1, X2](S1) ¬w∈D{(a, b)∈X1×X1 | a=b & card({a, b})<F1[a, Z]∪pr2(y)})`
+as an `E2` phrase -/
+def sampleE2 : E2 :=
+  let v (n : String) : E2 := .atom .ID_LOCAL (.text n)
+  let g (n : String) : E2 := .atom .ID_GLOBAL (.text n)
+  .quant .FORALL (.more (v "x") (.one (.tuple (v "y") (.one (v "z"))))) (.pow (.prod2 (g "X1") (g "X2")))
+    (.lbin .IMPLICATION
+      (.pcall (.text "P1") (.more (v "x") (.one (.enum (.more (v "y") (.one (.atom .LIT_INTEGER (.int 1))))))))
+      (.quant .EXISTS (.one (v "w")) (.filter (.tuple [1, 2]) (.more (g "X1") (.one (g "X2"))) (g "S1"))
+        (.neg (.pred .IN (v "w")
+          (.decl (.tuple (v "a") (.one (v "b"))) (.prod2 (g "X1") (g "X1"))
+            (.lbin .AND (.pred .EQUAL (v "a") (v "b"))
+              (.pred .LESSER (.text .CARD .none (.enum (.more (v "a") (.one (v "b")))))
+                (.sbin .UNION (.fcall (.text "F1") (.more (v "a") (.one (.atom .LIT_INTSET .none))))
+                  (.text .SMALLPR (.tuple [2]) (v "y"))))))))))
+
+/-- non-vacuity of the `E2` theorems: the sample satisfies every hypothesis in both syntaxes, and its tree is one the
+grammar produces -/
+theorem fragment2_nonvacuous :
+    sampleE2.wf = true ∧ sampleE2.isL = true ∧ sampleE2.lexOK .math = true ∧ sampleE2.lexOK .ascii = true ∧
+    wfAst sampleE2.ast = true := by
+  decide +kernel
+
+example : ∀ syn ∈ [Syn.math, .ascii], roundTrips syn sampleE2.ast = true := by
+  intro syn _
+  have h := fragment2_nonvacuous
+  exact parse_print_text_fragment2_self syn sampleE2 h.1 (Or.inr h.2.1) (by cases syn; exact h.2.2.1; exact h.2.2.2.1)
+
+/-- a Greek local name is inside the hypothesis for MATH and outside it for ASCII (recorded finding 7) -/
+example : (E2.atom .ID_LOCAL (.text "ρεδ")).lexOK .math = true ∧ (E2.atom .ID_LOCAL (.text "ρεδ")).lexOK .ascii = false := by
   decide +kernel
 
 /-! ### non-vacuity: constructor forms that do round-trip (both syntaxes) -/
